@@ -164,8 +164,8 @@ Proof.
   destruct (HS ps b3 eq_refl) as [OK3 L3].
   dps ps a1. dps ps a2. dps ps a3.
   destruct ps; [|err_good].
-  destruct ((a3 <? 0) || (a3 >? max_message_bytes)) eqn:R; [err_good|].
-  apply orb_false_iff in R. destruct R as [R0 _]. apply Z.ltb_ge in R0.
+  destruct (msg_bytes_invalid a3) eqn:R; [err_good|].
+  unfold msg_bytes_invalid in R. apply orb_false_iff in R. destruct R as [R0 _]. apply Z.ltb_ge in R0.
   split; [apply take_no_panic; lia|]. intros m r E. destruct (take_ok_inv a3 b3 m r R0 E) as [S Lm].
   subst b3. apply bytes_ok_app in OK3. destruct OK3. rewrite len_app in L3. repeat split; try assumption; try lia.
 Qed.
@@ -207,7 +207,7 @@ Section HandleProofs.
   Notation dec_gzip := (dec_gzip gunzip).
 
   Lemma dec_gzip_good b : bytes_ok b ->
-    dec_gzip b <> Panic /\ (forall d, dec_gzip b = Ok d -> bytes_ok d).
+    dec_gzip b <> Panic /\ (forall d, dec_gzip b = Ok d -> bytes_ok d /\ len d < c_maxUncompressedSize).
   Proof.
     intros OK. unfold HandleMsg.dec_gzip. destruct (consume_id_good c_GZIPTypeID b OK) as [NP HS].
     destruct (consume_id c_GZIPTypeID b) as [b1|e|]; cbn [bind]; [|split; [discriminate|intros; discriminate]|congruence].
@@ -215,25 +215,24 @@ Section HandleProofs.
     destruct (decode_bytes b1) as [[z r]|e|]; cbn [bind]; [|split; [discriminate|intros; discriminate]|congruence].
     destruct (gunzip z) as [d|]; [|split; [discriminate|intros; discriminate]].
     destruct (bytes_okb d) eqn:Eb; cbn [andb]; [|split; [discriminate|intros; discriminate]].
-    destruct (len d <? c_maxUncompressedSize); [|split; [discriminate|intros; discriminate]].
-    split; [discriminate|]. intros d' E; inversion E; subst. apply bytes_okb_spec, Eb.
+    destruct (Z.ltb_spec (len d) c_maxUncompressedSize); [|split; [discriminate|intros; discriminate]].
+    split; [discriminate|]. intros d' E; inversion E; subst. split; [apply bytes_okb_spec, Eb|assumption].
   Qed.
 
   (* ---------- leaves never panic ---------- *)
   Definition np (r : hres) : Prop := snd r <> SPanic.
-  Definition nf (r : hres) : Prop := snd r <> SErr HFuel.
   Lemma lift_np {A} (d : res tl_err A) k : d <> Panic -> (forall a, d = Ok a -> np (k a)) -> np (lift_status d k).
   Proof. intros NP H. unfold lift_status. destruct d; [apply H; reflexivity|cbn; discriminate|congruence]. Qed.
-  Lemma lift_nf {A} (d : res tl_err A) k : (forall a, d = Ok a -> nf (k a)) -> nf (lift_status d k).
-  Proof. intros H. unfold lift_status. destruct d; [apply H; reflexivity|cbn; discriminate|cbn; discriminate]. Qed.
 
   Lemma handle_pong_np b : bytes_ok b -> np (handle_pong b).
   Proof. intros OK. apply lift_np; [apply dec_pong_good, OK|]. intros [p r] _. cbn. discriminate. Qed.
   Lemma handle_session_np b : bytes_ok b -> np (handle_session on_session_ok b).
   Proof. intros OK. apply lift_np; [apply dec_session_good, OK|]. intros [[[f u] s] r] _. cbn. destruct (on_session_ok s); discriminate. Qed.
+  Lemma peek_np b : peek_id b <> Panic.
+  Proof. destruct (peek_id_spec b) as [[_ E]|[_ E]]; rewrite E; discriminate. Qed.
   Lemma handle_bad_msg_np b : bytes_ok b -> np (handle_bad_msg b).
   Proof.
-    intros OK. apply lift_np; [destruct (peek_id_spec b) as [[_ E]|[_ E]]; rewrite E; discriminate|].
+    intros OK. apply lift_np; [apply peek_np|].
     intros id _. destruct (id =? c_mt_BadMsgNotificationTypeID).
     - apply lift_np; [apply dec_bad_msg_good, OK|]. intros [[i c] r] _. cbn. discriminate.
     - destruct (id =? c_mt_BadServerSaltTypeID); [|cbn; discriminate].
@@ -249,8 +248,6 @@ Section HandleProofs.
     - apply lift_np; [apply dec_rpc_error_good, OK|]. intros [code r] _. cbn. discriminate.
     - destruct (id =? c_mt_PongTypeID); [apply handle_pong_np, OK|]. cbn. destruct (notify_ok req c); discriminate.
   Qed.
-  Lemma peek_np b : peek_id b <> Panic.
-  Proof. destruct (peek_id_spec b) as [[_ E]|[_ E]]; rewrite E; discriminate. Qed.
   Lemma handle_result_np b : bytes_ok b -> np (handle_result gunzip notify_ok b).
   Proof.
     intros OK. destruct (dec_result_spec b) as [NP HS]. apply lift_np; [exact NP|].
@@ -260,116 +257,64 @@ Section HandleProofs.
     apply lift_np; [apply peek_np|]. intros id' _. apply route_result_np, (HSg content Ec).
   Qed.
 
-  Lemma run_msgs_np h msgs : Forall (fun m => np (h m)) msgs -> np (run_msgs h msgs).
+  (* ---------- the whole handler: no panic, depth within the budget ---------- *)
+  Definition np3 (r : dres3) : Prop := snd (fst r) <> SPanic.
+  Lemma lift_np3 {A} (d : res tl_err A) k : d <> Panic -> (forall a, d = Ok a -> np3 (k a)) -> np3 (lift_status_d d k).
+  Proof. intros NP H. unfold lift_status_d. destruct d; [apply H; reflexivity|cbn; discriminate|congruence]. Qed.
+  Lemma run_msgs_np h msgs : Forall (fun m => np3 (h m)) msgs -> np3 (run_msgs_d h msgs).
   Proof.
-    induction 1 as [|m l Hm Hl IH]; cbn [run_msgs]; [cbn; discriminate|].
-    unfold np in *. destruct (h m) as [e1 s1]. cbn [snd] in Hm. destruct s1; cbn [snd]; try assumption.
-    destruct (run_msgs h l) as [e2 s2]. cbn [snd] in *. exact IH.
-  Qed.
-  Lemma run_msgs_nf h msgs : Forall (fun m => nf (h m)) msgs -> nf (run_msgs h msgs).
-  Proof.
-    induction 1 as [|m l Hm Hl IH]; cbn [run_msgs]; [cbn; discriminate|].
-    unfold nf in *. destruct (h m) as [e1 s1]. cbn [snd] in Hm. destruct s1; cbn [snd]; try assumption.
-    destruct (run_msgs h l) as [e2 s2]. cbn [snd] in *. exact IH.
+    induction 1 as [|m l Hm Hl IH]; cbn [run_msgs_d]; [cbn; discriminate|].
+    unfold np3 in *. destruct (h m) as [[e1 s1] d1]. cbn [fst snd] in Hm. destruct s1; cbn [fst snd]; try assumption.
+    destruct (run_msgs_d h l) as [[e2 s2] d2]. cbn [fst snd] in *. exact IH.
   Qed.
 
-  (* ---------- leaves never run out of fuel ---------- *)
-  Lemma handle_pong_nf b : nf (handle_pong b).
-  Proof. apply lift_nf. intros [p r] _. cbn. discriminate. Qed.
-  Lemma handle_session_nf b : nf (handle_session on_session_ok b).
-  Proof. apply lift_nf. intros [[[f u] s] r] _. cbn. destruct (on_session_ok s); discriminate. Qed.
-  Lemma handle_bad_msg_nf b : nf (handle_bad_msg b).
-  Proof.
-    apply lift_nf. intros id _. destruct (id =? c_mt_BadMsgNotificationTypeID).
-    - apply lift_nf. intros [[i c] r] _. cbn. discriminate.
-    - destruct (id =? c_mt_BadServerSaltTypeID); [|cbn; discriminate]. apply lift_nf. intros [[i c] r] _. cbn. discriminate.
-  Qed.
-  Lemma handle_future_salts_nf b : nf (handle_future_salts b).
-  Proof. apply lift_nf. intros [l r] _. cbn. discriminate. Qed.
-  Lemma handle_ack_nf b : nf (handle_ack b).
-  Proof. apply lift_nf. intros [l r] _. cbn. discriminate. Qed.
-  Lemma route_result_nf req id c : nf (route_result notify_ok req id c).
-  Proof.
-    unfold route_result. destruct (id =? c_mt_RPCErrorTypeID).
-    - apply lift_nf. intros [code r] _. cbn. discriminate.
-    - destruct (id =? c_mt_PongTypeID); [apply handle_pong_nf|]. cbn. destruct (notify_ok req c); discriminate.
-  Qed.
-  Lemma handle_result_nf b : nf (handle_result gunzip notify_ok b).
-  Proof.
-    apply lift_nf. intros [[req body] r] _. apply lift_nf. intros id _.
-    destruct (id =? c_GZIPTypeID); [|apply route_result_nf].
-    apply lift_nf. intros content _. apply lift_nf. intros id' _. apply route_result_nf.
-  Qed.
-
-  (* ---------- C23_total ---------- *)
   Ltac leaf_np OK :=
     lazymatch goal with
-    | |- np (handle_session _ _) => apply handle_session_np, OK
-    | |- np (handle_bad_msg _) => apply handle_bad_msg_np, OK
-    | |- np (handle_future_salts _) => apply handle_future_salts_np, OK
-    | |- np (handle_result _ _ _) => apply handle_result_np, OK
-    | |- np (handle_pong _) => apply handle_pong_np, OK
-    | |- np (handle_ack _) => apply handle_ack_np, OK
-    | |- np ([], SOk) => cbn; discriminate
-    | |- np ([EOnMessage _], _) => cbn; destruct (on_message_ok _); discriminate
-    | _ => idtac
-    end.
-  Ltac leaf_nf :=
-    lazymatch goal with
-    | |- nf (handle_session _ _) => apply handle_session_nf
-    | |- nf (handle_bad_msg _) => apply handle_bad_msg_nf
-    | |- nf (handle_future_salts _) => apply handle_future_salts_nf
-    | |- nf (handle_result _ _ _) => apply handle_result_nf
-    | |- nf (handle_pong _) => apply handle_pong_nf
-    | |- nf (handle_ack _) => apply handle_ack_nf
-    | |- nf ([], SOk) => cbn; discriminate
-    | |- nf ([EOnMessage _], _) => cbn; destruct (on_message_ok _); discriminate
+    | |- np3 (leaf (handle_session _ _)) => apply handle_session_np, OK
+    | |- np3 (leaf (handle_bad_msg _)) => apply handle_bad_msg_np, OK
+    | |- np3 (leaf (handle_future_salts _)) => apply handle_future_salts_np, OK
+    | |- np3 (leaf (handle_result _ _ _)) => apply handle_result_np, OK
+    | |- np3 (leaf (handle_pong _)) => apply handle_pong_np, OK
+    | |- np3 (leaf (handle_ack _)) => apply handle_ack_np, OK
+    | |- np3 (leaf ([], _)) => cbn; discriminate
+    | |- np3 (leaf ([EOnMessage _], _)) => cbn; destruct (on_message_ok _); discriminate
     | _ => idtac
     end.
 
-  Theorem handle_np : forall gz fuel msg_id b, bytes_ok b -> np (handle gz fuel msg_id b).
+  Theorem handle_np : forall budget msg_id b, bytes_ok b -> np3 (handle budget msg_id b).
   Proof.
-    induction gz as [|gz IHgz]; induction fuel as [|fuel IHf]; intros msg_id b OK; cbn [HandleMsg.handle];
-      (apply lift_np; [apply peek_np|]); intros id _; destruct (handle_dispatch id); leaf_np OK.
-    (* container / gzip, for each of the four (gz, fuel) shapes *)
-    all: lazymatch goal with
-         | |- np (lift_status (dec_container _) _) =>
-             destruct (dec_container_good b OK) as [NPc HSc]; apply lift_np; [exact NPc|]; intros [msgs r] E;
-             first [ cbn; discriminate
-                   | apply run_msgs_np; specialize (HSc msgs r E); eapply Forall_impl; [|exact HSc];
-                     intros m [OKm _]; apply IHf, OKm ]
-         | |- np (lift_status (HandleMsg.dec_gzip _ _) _) =>
-             destruct (dec_gzip_good b OK) as [NPg HSg]; apply lift_np; [exact NPg|]; intros content E;
-             first [ cbn; discriminate | apply IHgz, (HSg content E) ]
-         end.
+    induction budget as [|k IH]; intros msg_id b OK; cbn [HandleMsg.handle];
+      (apply lift_np3; [apply peek_np|]); intros id _; destruct (handle_dispatch id); leaf_np OK.
+    - destruct (dec_container_good b OK) as [NPc HSc]. apply lift_np3; [exact NPc|]. intros [msgs r] E.
+      assert (H : np3 (run_msgs_d (handle k msg_id) msgs)).
+      { apply run_msgs_np. specialize (HSc msgs r E). eapply Forall_impl; [|exact HSc]. intros m [OKm _]. apply IH, OKm. }
+      unfold np3 in *. destruct (run_msgs_d (handle k msg_id) msgs) as [r0 d0]. exact H.
+    - destruct (dec_gzip_good b OK) as [NPg HSg]. apply lift_np3; [exact NPg|]. intros content E.
+      pose proof (IH msg_id content (proj1 (HSg content E))) as H.
+      unfold np3 in *. destruct (handle k msg_id content) as [r0 d0]. exact H.
   Qed.
 
-  Theorem handle_nf : forall gz fuel msg_id b, bytes_ok b -> len b <= Z.of_nat fuel -> nf (handle gz fuel msg_id b).
+  (* the deepest nesting level the handler reaches never exceeds the budget *)
+  Lemma run_msgs_depth h msgs n : (forall m, (snd (h m) <= n)%nat) -> (snd (run_msgs_d h msgs) <= n)%nat.
   Proof.
-    induction gz as [|gz IHgz]; induction fuel as [|fuel IHf]; intros msg_id b OK LB; cbn [HandleMsg.handle];
-      apply lift_nf; intros id Eid;
-      (assert (L4 : 4 <= len b) by (destruct (peek_id_spec b) as [[_ E]|[L _]]; [rewrite E in Eid; discriminate|exact L]));
-      try (exfalso; change (Z.of_nat 0) with 0 in LB; lia);
-      destruct (handle_dispatch id); leaf_nf.
-    all: lazymatch goal with
-         | |- nf (lift_status (dec_container _) _) =>
-             apply lift_nf; intros [msgs r] E; destruct (dec_container_good b OK) as [_ HSc]; specialize (HSc msgs r E);
-             apply run_msgs_nf; eapply Forall_impl; [|exact HSc]; intros m [OKm Lm]; apply IHf; [exact OKm|lia]
-         | |- nf (lift_status (HandleMsg.dec_gzip _ _) _) =>
-             apply lift_nf; intros content E;
-             first [ cbn; discriminate
-                   | destruct (dec_gzip_good b OK) as [_ HSg]; apply IHgz; [apply (HSg content E)|unfold len; lia] ]
-         end.
+    intros H. induction msgs as [|m l IH]; cbn [run_msgs_d]; [cbn; lia|].
+    specialize (H m). destruct (h m) as [[e1 s1] d1]. cbn [snd] in H.
+    destruct s1; cbn [snd]; try exact H.
+    destruct (run_msgs_d h l) as [[e2 s2] d2]. cbn [snd] in *. lia.
+  Qed.
+  Theorem handle_depth : forall budget msg_id b, (snd (handle budget msg_id b) <= budget)%nat.
+  Proof.
+    induction budget as [|k IH]; intros msg_id b; cbn [HandleMsg.handle]; unfold lift_status_d;
+      destruct (peek_id b) as [id| |]; try (cbn; lia); destruct (handle_dispatch id); try (cbn; lia).
+    - destruct (dec_container b) as [[msgs r]| |]; try (cbn; lia).
+      pose proof (run_msgs_depth (handle k msg_id) msgs k (IH msg_id)) as H.
+      destruct (run_msgs_d (handle k msg_id) msgs) as [r0 d0]. cbn [snd] in *. lia.
+    - destruct (HandleMsg.dec_gzip gunzip b) as [content| |]; try (cbn; lia).
+      pose proof (IH msg_id content) as H. destruct (handle k msg_id content) as [r0 d0]. cbn [snd] in *. lia.
   Qed.
 End HandleProofs.
 
 (* ---------- C23_routing ---------- *)
-Lemma dispatch_result id : handle_dispatch id = T_handleResult -> id = c_ResultTypeID.
-Proof.
-  unfold handle_dispatch, c_ResultTypeID.
-  repeat match goal with |- context [if ?x =? ?k then _ else _] => destruct (Z.eqb_spec x k) end;
-    intros H; try discriminate H; subst; reflexivity.
-Qed.
 Lemma dispatch_container id : handle_dispatch id = T_handleContainer -> id = c_MessageContainerTypeID.
 Proof.
   unfold handle_dispatch, c_MessageContainerTypeID.
@@ -383,13 +328,6 @@ Proof.
     intros H; try discriminate H; subst; reflexivity.
 Qed.
 
-Lemma consume_id_ok id b b1 : consume_id id b = Ok b1 -> peek_id b = Ok id /\ b1 = skipn 4 b.
-Proof.
-  intros H. destruct (consume_id_spec id b) as [[_ E]|[[_ [_ E]]|[L [Eid E]]]]; rewrite E in H; try discriminate.
-  inversion H; subst. split; [|reflexivity].
-  destruct (peek_id_spec b) as [[L' _]|[_ E']]; [lia|rewrite E'; reflexivity].
-Qed.
-
 Section Routing.
   Variable gunzip : list Z -> option (list Z).
   Variable notify_ok : Z -> list Z -> bool.
@@ -398,6 +336,7 @@ Section Routing.
   Notation handle := (handle gunzip notify_ok on_message_ok on_session_ok).
   Notation submsg := (submsg gunzip).
   Notation routed := (routed gunzip).
+  Notation caused_by := (caused_by gunzip).
 
   Lemma submsg_trans a b c : submsg a b -> submsg b c -> submsg a c.
   Proof.
@@ -430,80 +369,92 @@ Section Routing.
   Proof.
     apply lift_routed. intros id Eid. destruct (id =? c_mt_BadMsgNotificationTypeID).
     - apply lift_routed. intros [[i c] r] E. constructor; [|constructor]. cbn [HandleMsg.routed].
-      exists b. split; [apply sub_self|]. right; left. unfold dec_bad_msg in E.
-      destruct (consume_id c_mt_BadMsgNotificationTypeID b) as [b1|e|] eqn:EC; cbn [bind] in E; try discriminate.
-      destruct (consume_id_ok _ _ _ EC) as [P ->].
-      destruct (decode_long (skipn 4 b)) as [[i' b2]|e|] eqn:EL; cbn [bind] in E; try discriminate.
-      destruct (decode_all [KInt; KInt] b2) as [[ps r']|e|]; cbn [bind] in E; try discriminate.
-      dps ps a1; try discriminate. dps ps a2; try discriminate. destruct ps; try discriminate.
-      inversion E; subst. split; [exact P|]. unfold id_field. rewrite EL. reflexivity.
+      exists b. split; [apply sub_self|]. right; left. exists r. exact E.
     - destruct (id =? c_mt_BadServerSaltTypeID); [|constructor].
       apply lift_routed. intros [[i c] r] E. constructor; [|constructor]. cbn [HandleMsg.routed].
-      exists b. split; [apply sub_self|]. right; right. unfold dec_bad_salt in E.
-      destruct (consume_id c_mt_BadServerSaltTypeID b) as [b1|e|] eqn:EC; cbn [bind] in E; try discriminate.
-      destruct (consume_id_ok _ _ _ EC) as [P ->].
-      destruct (decode_long (skipn 4 b)) as [[i' b2]|e|] eqn:EL; cbn [bind] in E; try discriminate.
-      destruct (decode_all [KInt; KInt; KLong] b2) as [[ps r']|e|]; cbn [bind] in E; try discriminate.
-      dps ps a1; try discriminate. dps ps a2; try discriminate. dps ps a3; try discriminate. destruct ps; try discriminate.
-      inversion E; subst. split; [exact P|]. unfold id_field. rewrite EL. reflexivity.
+      exists b. split; [apply sub_self|]. right; right. exists r. exact E.
   Qed.
 
-  Lemma route_result_routed b req id c : names b c_ResultTypeID req -> all_routed b (route_result notify_ok req id c).
+  (* handleResult: the routed content is the body of THIS rpc_result or its decompression *)
+  Lemma route_result_routed b req body rest id content :
+    dec_result b = Ok ((req, body), rest) -> result_content gunzip body content -> peek_id content = Ok id ->
+    all_routed b (route_result notify_ok req id content).
   Proof.
-    intros N. unfold route_result. destruct (id =? c_mt_RPCErrorTypeID).
-    - apply lift_routed. intros [code r] _. constructor; [|constructor]. cbn [HandleMsg.routed].
-      exists b. split; [apply sub_self|left; exact N].
+    intros D RC P. unfold route_result. destruct (Z.eqb_spec id c_mt_RPCErrorTypeID).
+    - apply lift_routed. intros [code r] E. constructor; [|constructor]. cbn [HandleMsg.routed].
+      exists b. split; [apply sub_self|]. left. exists body, rest, content, r. subst id. auto.
     - destruct (id =? c_mt_PongTypeID); [apply pong_routed|].
-      constructor; [|constructor]. cbn [HandleMsg.routed]. exists b. split; [apply sub_self|exact N].
+      constructor; [|constructor]. cbn [HandleMsg.routed]. exists b. split; [apply sub_self|].
+      exists body, rest. auto.
   Qed.
   Lemma result_routed b : all_routed b (handle_result gunzip notify_ok b).
   Proof.
     apply lift_routed. intros [[req body] r] E.
-    destruct (dec_result_spec b) as [_ HS]. destruct (HS req body r E) as [P [EL _]].
-    assert (N : names b c_ResultTypeID req) by (split; [exact P|unfold id_field; rewrite EL; reflexivity]).
-    apply lift_routed. intros id _. destruct (id =? c_GZIPTypeID); [|apply route_result_routed, N].
-    apply lift_routed. intros content _. apply lift_routed. intros id' _. apply route_result_routed, N.
+    apply lift_routed. intros id P. destruct (Z.eqb_spec id c_GZIPTypeID).
+    - subst id. apply lift_routed. intros content G. apply lift_routed. intros id' P'.
+      apply (route_result_routed b req body r id' content E); [right; split; assumption|exact P'].
+    - apply (route_result_routed b req body r id body E); [left; reflexivity|exact P].
   Qed.
 
+  Definition all_routed3 (b : list Z) (r : dres3) : Prop := Forall (routed b) (fst (fst r)).
+  Lemma lift_routed3 {A} b (d : res tl_err A) k : (forall a, d = Ok a -> all_routed3 b (k a)) -> all_routed3 b (lift_status_d d k).
+  Proof. intros H. unfold lift_status_d. destruct d; [apply H; reflexivity|constructor|constructor]. Qed.
   Lemma run_msgs_routed b h msgs :
-    Forall (fun m => submsg b m /\ all_routed m (h m)) msgs -> all_routed b (run_msgs h msgs).
+    Forall (fun m => submsg b m /\ all_routed3 m (h m)) msgs -> all_routed3 b (run_msgs_d h msgs).
   Proof.
-    induction 1 as [|m l [Sm Hm] Hl IH]; cbn [run_msgs]; [constructor|].
-    unfold all_routed in *. destruct (h m) as [e1 s1]. cbn [fst] in Hm.
+    induction 1 as [|m l [Sm Hm] Hl IH]; cbn [run_msgs_d]; [constructor|].
+    unfold all_routed3 in *. destruct (h m) as [[e1 s1] d1]. cbn [fst] in Hm.
     assert (H1 : Forall (routed b) e1).
     { eapply Forall_impl; [|exact Hm]. intros e He. eapply routed_sub; eauto. }
     destruct s1; cbn [fst]; try exact H1.
-    destruct (run_msgs h l) as [e2 s2]. cbn [fst] in *. apply Forall_app. split; assumption.
+    destruct (run_msgs_d h l) as [[e2 s2] d2]. cbn [fst] in *. apply Forall_app. split; assumption.
   Qed.
 
   Ltac leaf_rt :=
     lazymatch goal with
-    | |- all_routed _ (handle_session _ _) => apply session_routed
-    | |- all_routed _ (handle_bad_msg _) => apply bad_msg_routed
-    | |- all_routed _ (handle_future_salts _) => apply salts_routed
-    | |- all_routed _ (handle_result _ _ _) => apply result_routed
-    | |- all_routed _ (handle_pong _) => apply pong_routed
-    | |- all_routed _ (handle_ack _) => apply ack_routed
-    | |- all_routed _ ([], SOk) => constructor
-    | |- all_routed _ ([EOnMessage _], _) => repeat constructor
+    | |- all_routed3 _ (leaf (handle_session _ _)) => apply session_routed
+    | |- all_routed3 _ (leaf (handle_bad_msg _)) => apply bad_msg_routed
+    | |- all_routed3 _ (leaf (handle_future_salts _)) => apply salts_routed
+    | |- all_routed3 _ (leaf (handle_result _ _ _)) => apply result_routed
+    | |- all_routed3 _ (leaf (handle_pong _)) => apply pong_routed
+    | |- all_routed3 _ (leaf (handle_ack _)) => apply ack_routed
+    | |- all_routed3 _ (leaf ([], _)) => constructor
+    | |- all_routed3 _ (leaf ([EOnMessage _], _)) => repeat constructor
     | _ => idtac
     end.
 
-  Theorem handle_routed : forall gz fuel msg_id b, all_routed b (handle gz fuel msg_id b).
+  Theorem handle_routed : forall budget msg_id b, all_routed3 b (handle budget msg_id b).
   Proof.
-    induction gz as [|gz IHgz]; induction fuel as [|fuel IHf]; intros msg_id b; cbn [HandleMsg.handle];
-      apply lift_routed; intros id Eid; destruct (handle_dispatch id) eqn:D; leaf_rt.
-    all: lazymatch goal with
-         | |- all_routed _ (lift_status (dec_container _) _) =>
-             apply dispatch_container in D; subst id; apply lift_routed; intros [msgs r] E;
-             first [ constructor
-                   | apply run_msgs_routed; apply Forall_forall; intros m Im; split;
-                     [eapply sub_container; [exact Eid|exact E|exact Im|apply sub_self]|apply IHf] ]
-         | |- all_routed _ (lift_status (HandleMsg.dec_gzip _ _) _) =>
-             apply dispatch_gzip in D; subst id; apply lift_routed; intros content E;
-             first [ constructor
-                   | unfold all_routed; eapply Forall_impl; [|apply (IHgz (length content) msg_id content)];
-                     intros e He; eapply routed_sub; [eapply sub_gzip; [exact Eid|exact E|apply sub_self]|exact He] ]
-         end.
+    induction budget as [|k IH]; intros msg_id b; cbn [HandleMsg.handle];
+      apply lift_routed3; intros id Eid; destruct (handle_dispatch id) eqn:D; leaf_rt.
+    - apply dispatch_container in D. subst id. apply lift_routed3. intros [msgs r] E.
+      assert (H : all_routed3 b (run_msgs_d (handle k msg_id) msgs)).
+      { apply run_msgs_routed. apply Forall_forall. intros m Im. split; [|apply IH].
+        eapply sub_container; [exact Eid|exact E|exact Im|apply sub_self]. }
+      unfold all_routed3 in *. destruct (run_msgs_d (handle k msg_id) msgs) as [r0 d0]. exact H.
+    - apply dispatch_gzip in D. subst id. apply lift_routed3. intros content E.
+      assert (H : all_routed3 b (handle k msg_id content)).
+      { unfold all_routed3. eapply Forall_impl; [|apply (IH msg_id content)].
+        intros e He. eapply routed_sub; [eapply sub_gzip; [exact Eid|exact E|apply sub_self]|exact He]. }
+      unfold all_routed3 in *. destruct (handle k msg_id content) as [r0 d0]. exact H.
   Qed.
 End Routing.
+
+(* ---------- waiter registries: close + delete never closes twice ---------- *)
+Lemma reg_find_open r id s : all_open r -> reg_find r id = Some s -> s = ChOpen.
+Proof.
+  induction r as [|[i st] t IH]; cbn [reg_find]; [discriminate|]. intros H. inversion H as [|? ? Hh Ht]; subst.
+  destruct (i =? id); [intros E; inversion E; subst; exact Hh|apply IH, Ht].
+Qed.
+Lemma reg_delete_open r id : all_open r -> all_open (reg_delete r id).
+Proof.
+  induction r as [|[i st] t IH]; cbn [reg_delete]; intros H; [constructor|]. inversion H as [|? ? Hh Ht]; subst.
+  destruct (i =? id); [apply IH, Ht|constructor; [exact Hh|apply IH, Ht]].
+Qed.
+Theorem close_all_no_panic ids : forall r, all_open r -> exists r', close_all r ids = Ok r' /\ all_open r'.
+Proof.
+  induction ids as [|id t IH]; intros r H; cbn [close_all]; [exists r; auto|].
+  unfold close_delete. destruct (reg_find r id) as [s|] eqn:E; [|apply IH, H].
+  rewrite (reg_find_open r id s H E). apply IH, reg_delete_open, H.
+Qed.
+
